@@ -25,7 +25,7 @@ def generate(ctx):
     th = ctx.tier == "thorough"
     for i in range(1500 if th else 60):
         kind = KINDS[i % len(KINDS)]
-        d = {"kind": kind, "B": rng.randint(2, 5), "dt": rng.choice([1.0, 0.5]), "T": rng.randint(8, 25),
+        d = {"kind": kind, "B": rng.randint(2, 5), "dt": rng.choice([1.0, 0.5, 1.3, 0.25]), "T": rng.randint(8, 25),
              "seed": rng.randrange(1 << 30), "dtype": "float64"}
         # "for all batch sizes": also batch sizes reached through the batchsz setter (built at another size, then resized)
         d["resize_from"] = rng.choice([None, None, 1, d["B"] + 2, max(1, d["B"] - 1)]) if kind in ("neuron", "synapse", "connection") else None
